@@ -44,6 +44,15 @@ def gen_case(rnd):
         filt = [sg.gen_pred(rnd) for _ in range(rnd.choice([0, 0, 1, 2]))]
         mets.append((agg, expr, filt))
     filters = [sg.gen_pred(rnd) for _ in range(rnd.choice([0, 0, 1, 2, 3]))]
+    # filters that name a COMPUTED dimension of the query (not its columns) under an operator that binds tighter than the top operator of
+    # the dimension's own expression: the dimension's value is what must be compared, however the layer gets the reference evaluated
+    comp = [(i, e) for i, e in enumerate(dims) if e[0] in ("add", "sub", "mul")]
+    if comp and rnd.random() < 0.5:
+        i, e = rnd.choice(comp)
+        d = ("dref", i, e)
+        filters.append(rnd.choice([("cmp", rnd.choice([">=", "<", "=", "<>"]), ("mul", d, sg.lit(rnd.choice([2, -1, 3]))), sg.lit(rnd.choice([0, 2, -2, 4, 6]))),
+                                   ("cmp", rnd.choice([">=", "<"]), ("sub", sg.lit(rnd.choice([1, 3])), d), sg.lit(rnd.choice([0, 1, 2]))),
+                                   ("not", ("cmp", "=", ("mul", sg.lit(2), d), sg.lit(rnd.choice([0, 2, 4]))))]))
     ungrouped = rnd.random() < 0.12
     composite = rnd.random() < 0.2
     nout = len(dims) + len(mets)
@@ -66,7 +75,7 @@ def gen_case(rnd):
             order = []
     sqlpre = [sg.gen_pred(rnd)] if rnd.random() < 0.25 else []
     return dict(rows=rows, dims=dims, mets=mets, filters=filters, ungrouped=ungrouped, composite=composite, order=order, limit=limit, offset=offset,
-                sqlpre=sqlpre, placeholder=rnd.random() < 0.3, autoparse=rnd.random() < 0.25, tgran=tgran)
+                sqlpre=sqlpre, placeholder=rnd.random() < 0.3, autoparse=rnd.random() < 0.25, tgran=tgran, bare_dims=rnd.random() < 0.6)
 
 
 def dim_name(i, e):
@@ -103,7 +112,7 @@ def real(case):
             mets.append(Metric(name="m%d" % j, agg=a, sql=(sg.sql(e, q) if e else None), filters=filters))
     src = dict(sql="SELECT * FROM t WHERE %s" % sg.sql(case["sqlpre"][0])) if case["sqlpre"] else dict(table="t")
     m = Model(name="t", primary_key=({True: ["id", "id2"], "str": ["id2", "s0"]}[case["composite"]] if case["composite"] else "id"),
-              dimensions=[Dimension(name="d%d" % i, type=("categorical" if e == sg.col(sg.S0) else "numeric"), sql=sg.sql(e, q)) for i, e in enumerate(case["dims"]) if e[0] != "tdim"] +
+              dimensions=[Dimension(name="d%d" % i, type=("categorical" if e == sg.col(sg.S0) else "numeric"), sql=(sg.sql_top(e, q) if case.get("bare_dims") else sg.sql(e, q))) for i, e in enumerate(case["dims"]) if e[0] != "tdim"] +
                          [Dimension(name="tdc%d" % k, type="time", granularity=case.get("tgran", "day"), sql="(TIMESTAMP '2024-01-15 00:00:00' + %s%s * INTERVAL 20 DAY)" % (q, sg.COLS[k]))
                           for k in sorted({e[2] for e in case["dims"] if e[0] == "tdim"})],
               metrics=mets, **src)
